@@ -62,6 +62,8 @@ def canon(v, ty):
         n = len(ty["tails"])
         return "(" + ",".join([canon(v[:len(v) - n], {"k": "list", "e": ty["e"]})] +
                               [canon(x, t) for x, t in zip(v[len(v) - n:], ty["tails"])]) + ")"
+    if k == "effect":
+        return fmt_formula(v)
     if k == "builder":
         ctor, log = BUILDER_VIEW[ty["cls"]](v)
         return "(" + canon(ctor, ty["ctor"]) + "," + canon(log, {"k": "list", "e": ty["args"]}) + ")"
@@ -76,6 +78,26 @@ def canon_obj(obj, cls, manifest):
         v = getattr(obj, f)
         parts.append("{}={}".format(f, canon_obj(v, ty["cls"], manifest) if ty["k"] == "obj" else canon(v, ty)))
     return "{}({})".format(cls, ",".join(parts))
+
+
+def fmt_formula(F):
+    """canonical text of a CNF / OPB object (the driver's `fmtFormula`)"""
+    from cnfgen.formula.baseopb import BaseOPB
+    if isinstance(F, BaseOPB):
+        cs = list(F)
+        parts = [str(len(cs))]
+        for c in cs:
+            c = list(c)
+            toks = []
+            for coef, lit in c[:-2]:
+                toks += [str(coef), str(lit)]
+            parts.append(" ".join(toks + [str(c[-2]), str(c[-1])]))
+        return "{} {}".format(F.number_of_variables(), " ; ".join(parts))
+    cs = [list(c) for c in F.clauses()]
+    out = [str(len(cs))]
+    for c in cs:
+        out += [str(l) for l in c] + ["0"]
+    return "{} {}".format(F.number_of_variables(), " ".join(out))
 
 
 def _record_commands(modname, cls, cmd):
@@ -136,6 +158,8 @@ def encode(v, ty):
         for x, t in zip(v[len(v) - n:], ty["tails"]):
             out += encode(x, t)
         return out
+    if k == "effect_class":
+        return [v]
     if k == "outcome":
         return [OUTCOME[v]]
     if k == "abs":
@@ -175,7 +199,53 @@ def _enc_bip(g):
     return out
 
 
+def _gen_di(rng):
+    n = rng.choice([0, 1, 2, 3, 4, 5])
+    if rng.random() < 0.8:
+        pairs = [(u, v) for u in range(1, n + 1) for v in range(u + 1, n + 1)]      # a DAG in topological order
+    else:
+        pairs = [(u, v) for u in range(1, n + 1) for v in range(1, n + 1) if u != v]
+    rng.shuffle(pairs)
+    return (n, pairs[:rng.randint(0, len(pairs))])
+
+
+def _real_di(g):
+    from cnfgen.graphs import DirectedGraph
+    n, es = g
+    D = DirectedGraph(n)
+    for u, v in es:
+        D.add_edge(u, v)
+    return D
+
+
+def _enc_di(g):
+    n, es = g
+    out = [n, len(es)]
+    for u, v in es:
+        out += [u, v]
+    return out
+
+
+def _gen_graph(rng):
+    n = rng.choice([0, 1, 2, 3, 4, 5])
+    pairs = [(u, v) for u in range(1, n + 1) for v in range(u + 1, n + 1)]
+    rng.shuffle(pairs)
+    pairs = pairs[:rng.randint(0, len(pairs))]
+    return (n, [(v, u) if rng.random() < 0.3 else (u, v) for u, v in pairs])
+
+
+def _real_graph(g):
+    from cnfgen.graphs import Graph
+    n, es = g
+    G = Graph(n)
+    for u, v in es:
+        G.add_edge(u, v)
+    return G
+
+
 ABS = {
+    "AbsGraph": {"gen": _gen_graph, "real": _real_graph, "encode": _enc_di},
+    "AbsDiGraph": {"gen": _gen_di, "real": _real_di, "encode": _enc_di},
     "AbsFormula": {"gen": lambda rng: rng.choice([0, 0, 1, 3, 7, 100, 2 ** 40]), "real": _formula,
                    "encode": lambda n: [n]},
     "AbsBipGraph": {"gen": _gen_bip, "real": _real_bip, "encode": _enc_bip},
@@ -211,6 +281,8 @@ def gen_value(rng, ty, hint=None, ctx=None):
         return tuple(gen_value(rng, t) for t in ty["es"])
     if k == "abs":
         return ABS[ty["name"]]["gen"](rng)
+    if k == "effect_class":
+        return rng.choice([0, 0, 1])
     if k == "het":
         return gen_value(rng, {"k": "list", "e": ty["e"]}) + [gen_value(rng, t) for t in ty["tails"]]
     if k == "erased":
@@ -451,6 +523,31 @@ def lin_lits(rng, ctx):
 
 
 HINTS = {
+    ("GraphPigeonholePrinciple", "G"): lambda rng, ctx: _gen_bip(rng),
+    ("RelativizedPigeonholePrinciple", "pigeons"): lambda rng, ctx: rng.choice([0, 1, 2, 3, 4, -1]),
+    ("RelativizedPigeonholePrinciple", "resting_places"): lambda rng, ctx: rng.choice([0, 1, 2, 3, 4, -1]),
+    ("RelativizedPigeonholePrinciple", "holes"): lambda rng, ctx: rng.choice([0, 1, 2, 3, -1]),
+    ("BinaryPigeonholePrinciple", "pigeons"): lambda rng, ctx: rng.choice([0, 1, 2, 3, 4, -1]),
+    ("BinaryPigeonholePrinciple", "holes"): lambda rng, ctx: rng.choice([0, 1, 2, 3, 4, 5, 8, 9, -1]),
+    ("PigeonholePrinciple", "pigeons"): lambda rng, ctx: rng.choice([0, 1, 2, 3, 4, 5, -1]),
+    ("PigeonholePrinciple", "holes"): lambda rng, ctx: rng.choice([0, 1, 2, 3, 4, -1]),
+    ("GraphOrderingPrinciple", "graph"): lambda rng, ctx: _gen_graph(rng),
+    ("GraphOrderingPrinciple", "knuth"): lambda rng, ctx: rng.choice([0, 0, 2, 3, 1, 5]),
+    ("OrderingPrinciple", "size"): lambda rng, ctx: rng.choice([0, 1, 2, 3, 4, 5, -1]),
+    ("OrderingPrinciple", "knuth"): lambda rng, ctx: rng.choice([0, 0, 2, 3, 1, 5]),
+    ("RamseyNumber", "s"): lambda rng, ctx: rng.choice([1, 2, 3, 4, 0, -1]),
+    ("RamseyNumber", "k"): lambda rng, ctx: rng.choice([1, 2, 3, 4, 5, 0]),
+    ("RamseyNumber", "N"): lambda rng, ctx: rng.choice([0, 1, 2, 3, 4, 5, 6, -1]),
+    ("CountingPrinciple", "M"): lambda rng, ctx: rng.choice([0, 1, 2, 3, 4, 5, 6, 7, -1]),
+    ("CountingPrinciple", "p"): lambda rng, ctx: rng.choice([1, 2, 3, 4, 8, 0, -1]),
+    ("PythagoreanTriples", "N"): lambda rng, ctx: rng.choice([0, 1, 4, 5, 10, 13, 17, 20, 26, 30, -1]),
+    ("VanDerWaerden", "N"): lambda rng, ctx: rng.choice([0, 1, 2, 3, 4, 5, 6, 8, 9, -1]),
+    ("VanDerWaerden", "k1"): lambda rng, ctx: rng.choice([1, 2, 3, 4, 0, -1]),
+    ("VanDerWaerden", "k2"): lambda rng, ctx: rng.choice([1, 2, 3, 4, 5, 0]),
+    ("VanDerWaerden", "ks"): lambda rng, ctx: [rng.choice([1, 2, 3, 3, 4, 0]) for _ in range(rng.choice([0, 0, 0, 1, 2, 3]))],
+    ("positive_int_seq", "value"): lambda rng, ctx: [rng.choice([1, 2, 3, 7, 0, -2, 2 ** 70]) for _ in range(rng.choice([0, 1, 2, 3, 4]))],
+    ("non_negative_int", "value"): lambda rng, ctx: rng.choice([0, 1, -1, 5, -7, 2 ** 70]),
+    ("positive_int", "value"): lambda rng, ctx: rng.choice([0, 1, -1, 5, -7, 2 ** 70]),
     ("CNFLinear", "lits"): lin_lits,
     ("CNFLinear", "op"): lambda rng, ctx: rng.choice(["<=", ">=", "<", ">", "==", "!="] * 3 + ["=", "=>"]),
     ("CNFLinear", "constant"): lambda rng, ctx: rng.randint(-2, 8),
@@ -673,7 +770,40 @@ def _add_linear_spec(obj, args):
     return None
 
 
+def _brute_sat(F):
+    import itertools
+    n = F.number_of_variables()
+    cs = [list(c) for c in F.clauses()]
+    if n > 12:
+        return None
+    for bits in itertools.product([False, True], repeat=n):
+        if all(any((l > 0) == bits[abs(l) - 1] for l in c) for c in cs):
+            return True
+    return False
+
+
+def _php_spec(obj, args):
+    m, n, functional, onto, cls = args
+    if m < 0 or n < 0 or m * n > 12:
+        return None
+    from cnfgen.formula.cnf import CNF
+    mod = importlib.import_module("cnfgen.families.pigeonhole")
+    F = mod.PigeonholePrinciple(m, n, functional, onto, formula_class=CNF)
+    if onto and functional:
+        want = (m == n)
+    elif onto:
+        want = (m <= n) and (n == 0 or m > 0)
+    else:
+        want = (m <= n)
+    got = _brute_sat(F)
+    if F.number_of_variables() != m * n or got != want:
+        return {"pigeons": m, "holes": n, "functional": functional, "onto": onto, "variables": F.number_of_variables(),
+                "satisfiable": got, "expected": want}
+    return None
+
+
 ORACLES = {
+    "PigeonholePrinciple": _php_spec,
     "CNFLinear.add_linear": _add_linear_spec,
     "bipartite_shift": _shift_spec,
     "dag_path": _dag_spec("dag_path"),
@@ -803,6 +933,11 @@ def make_call(rng, fn, manifest):
             v = gen_value(rng, ty, hint_for(owner, p, meth), ctx)
             ctx[p] = v
             enc.append((ty, v))
+            if ty["k"] == "effect_class":
+                from cnfgen.formula.cnf import CNF
+                from cnfgen.formula.opb import OPB
+                real.append(OPB if v == 1 else CNF)
+                continue
             real.append(ABS[ty["name"]]["real"](v) if ty["k"] == "abs" else v)
         return real, enc
     init = manifest["classes"][cls]["init"] if cls else None
@@ -833,7 +968,13 @@ def make_call(rng, fn, manifest):
             f = getattr(mod, fn["py"])
             import copy
             args = copy.deepcopy(strip_omitted(real))
-            r = f(*args) if not fn["vararg"] else f(*args[0])
+            if fn["vararg"]:
+                # f(a, b, *seq, kwonly=…): parameters before the sequence are positional, those after it keyword-only
+                names = [p for p, ty in fn["params"] if ty["k"] != "erased" or probes.get(p) is not None]
+                i = names.index(fn["vararg"])
+                r = f(*(args[:i] + list(args[i])), **dict(zip(names[i + 1:], args[i + 1:])))
+            else:
+                r = f(*args)
             return "OK " + canon(r, fn["ret"])
         C = getattr(mod, cls)
         if fn["is_init"]:
